@@ -178,8 +178,9 @@ class Prop(common.PropertyCheck):
             return 'after a later, unrelated fit the functions and parameters returned by this fit no longer give the same values (%s)' % impl['stable']
         p = [unbits(b) for b in impl['p']]
         if not all(math.isfinite(v) for v in p):
-            if case['k'] == 'recover' or math.isnan(p[2]):
-                return 'non-finite parameters %s' % p
+            if case['k'] == 'recover' or math.isnan(p[2]) or case.get('kind') in ('convex', 'concave'):
+                # (bead pairs that follow the model exactly, shifted by a constant, have a finite best fit: nothing for an optimiser to run off to)
+                return 'non-finite parameters %s (%s)' % (p, {k: v for k, v in case.items()})
             # arbitrary pairs: the property makes no convergence claim.  With parameters beyond the double range the callables evaluate to
             # inf*0 = NaN, so the structural identities (proved over the reals for all parameters: sc_odd, sc_zero, model_eq_curve_sub_auto) cannot
             # be evaluated in floating point; counted, not judged
